@@ -19,7 +19,7 @@ RULE = ("generated productive grammars emphasising list-of-abstract fields, unio
         "chains under the same limit; thorough tier adds ALL draw sequences for grammars with a small decision tree; "
         "non-trivial = limit >= grammar minimum and program has >= 2 nodes, or the limit is infeasible")
 ASSUMPTIONS = [
-    "CPython's recursion limit (sys.setrecursionlimit(10000)) is not modelled: limits in the thousands are outside the explored range",
+    "CPython's recursion limit (the library sets sys.setrecursionlimit(10000) at import) is not modelled: limits of 150 / 320 (thorough: 450) are exercised in a fresh interpreter on frame-heavy chain grammars (worker, Python-side verdict); limits in the thousands are outside the explored range",
 ]
 OPTS = {"float": False, "str": False, "ann": True}
 
